@@ -98,3 +98,4 @@ MODULES += [
     {"name": "WrapAvx512", "sigs": True, "ns": "Gen.WrapAvx512", "imports": VEC_IMPORTS + ["GoldilocksVerif.Gen.Avx512", "GoldilocksVerif.Gen.Avx512Mat", "GoldilocksVerif.Gen.PosAvx512"], "needs_globals": True,
      "roots": [("Goldilocks", n) for n in WRAP_AVX512]},
 ]
+
